@@ -163,6 +163,7 @@ macro_rules! family_body {
         pub struct Node {
             pub id: u32,
             pub name: String,
+            pub up: Option<W<Node>>,
             pub wfirst: Vec<W<Node>>,
             pub one: Option<S<Node>>,
             pub kids: Vec<S<Node>>,
@@ -205,6 +206,7 @@ macro_rules! family_body {
             Node {
                 id: u32::MAX,
                 name: "dropped".into(),
+                up: None,
                 wfirst: vec![],
                 one: None,
                 kids: vec![],
@@ -242,6 +244,7 @@ macro_rules! family_body {
                     Node {
                         id: i as u32,
                         name: ns.name.clone(),
+                        up: if defer { None } else { ns.up.as_ref().map(|t| wk(t, me)) },
                         wfirst: if defer { vec![] } else { ns.wfirst.iter().map(|t| wk(t, me)).collect() },
                         one: ns.one.map(&get),
                         kids: ns.kids.iter().map(|j| get(*j)).collect(),
@@ -276,11 +279,13 @@ macro_rules! family_body {
                             WT::SelfRef => w_of(built[i].as_ref().unwrap()),
                         }
                     };
+                    let up: Option<W<Node>> = ns.up.as_ref().map(&wk);
                     let wfirst: Vec<W<Node>> = ns.wfirst.iter().map(&wk).collect();
                     let inner_w: Vec<W<Node>> = ns.inner_w.iter().map(&wk).collect();
                     let weak: Vec<W<Node>> = ns.weak.iter().map(&wk).collect();
                     let wmap: BTreeMap<String, W<Node>> = ns.wmap.iter().map(|(k, t)| (k.clone(), wk(t))).collect();
                     s_mutate(built[i].as_ref().unwrap(), move |node: &mut Node| {
+                        node.up = up;
                         node.wfirst = wfirst;
                         node.inner.w = inner_w;
                         node.weak = weak;
@@ -339,6 +344,11 @@ macro_rules! family_body {
         fn walk_node(c: &mut Canon, n: &Node) {
             c.tok(&format!("id={}", n.id));
             c.text(&n.name);
+            c.tok("up");
+            match &n.up {
+                None => c.tok("none"),
+                Some(w) => c.weak(w_target(w), true),
+            }
             c.tok("wfirst[");
             for w in &n.wfirst {
                 c.weak(w_target(w), false);
@@ -727,6 +737,7 @@ pub mod plain {
             let n = Node {
                 id: i as u32,
                 name: ns.name.clone(),
+                up: ns.up.as_ref().map(|t| wk(spec, t, memo)),
                 wfirst: ns.wfirst.iter().map(|t| wk(spec, t, memo)).collect(),
                 one: ns.one.map(|j| bx(j, memo)),
                 kids: ns.kids.iter().map(|j| bx(*j, memo)).collect(),
